@@ -395,6 +395,39 @@ def _materialise_holders(cur: Obj) -> None:
                 cur.attrs[p_[0]] = shadow.attrs[p_[0]]
 
 
+CTX_STATE = ("database", "schema", "database_set", "schema_set")
+
+
+def _seat_session_state(conn: Obj) -> None:
+    """When the connection keeps its context behind properties (a session-state object, flags folded into an enum …), put the
+    abstract start state where the class keeps it: construct the backing objects as `__init__` does, then assign the four
+    context values through the property setters."""
+    from .interp import Hooks as _H, Interp as _I
+    from .model import Program, is_property
+    prog = _PROG if _PROG is not None else Program()
+    m = prog.modules.get("conn")
+    if m is None:
+        return
+    props = [a for a in CTX_STATE if (f_ := m.functions.get(f"FakeSnowflakeConnection.{a}")) is not None and is_property(f_)]
+    if not props:
+        return
+    sandbox = _I(prog, _H(), [])
+    values = {a: conn.attrs.pop(a) for a in props if a in conn.attrs}
+    conn.lazy_done = True
+    sandbox._lazy_init(conn)
+    for a, v in values.items():
+        setter = m.functions.get(f"FakeSnowflakeConnection.{a}.setter")
+        if setter is not None:
+            from .values import Func as _F
+            sandbox.call_func(_F("conn", f"FakeSnowflakeConnection.{a}.setter", setter, self_val=conn), [v], {}, None)
+    sandbox.refresh_properties(conn, props)
+
+
+def refresh_context(I, conn: Obj) -> None:
+    """read the connection's context through its properties (when it has them) so that `conn.attrs[...]` shows what a caller sees"""
+    I.refresh_properties(conn, CTX_STATE)
+
+
 def make_session(database_set=None, schema_set=None, db_path=False):
     r = R()
     duck = Obj("duck", kind="duck")
@@ -408,6 +441,7 @@ def make_session(database_set=None, schema_set=None, db_path=False):
         variables=_new_variables(),
         **{r.paramstyle: Const("pyformat"), r.conn_duck: duck},
     )
+    _seat_session_state(conn)
     cur = Obj("cur", cls=CURSOR, **{r.conn: conn, r.duck: duck, r.dict_flag: Const(False)})
     _materialise_holders(cur)
     for role, v in (("last_sql", Sym("old_last_sql")), ("last_params", Sym("old_last_params")), ("sqlstate", Const(None)), ("arraysize", Const(1)),
@@ -448,10 +482,13 @@ def run_kind(prog: Program, kind: str, mode: str | None, database_set=True, sche
         sessions.append((conn, cur, info))
         if prog.has_fn("checks", "is_unqualified_table_expression") and (no_db is not None):
             pass
-        t = I.call(I.getattr(cur, "_transform"), [stmt], {}, None)
-        info["transformed"] = t
-        I.effect("transformed", t)
-        r = I.call(I.getattr(cur, "_execute"), [t, Sym("params")], {}, None)
+        try:
+            t = I.call(I.getattr(cur, "_transform"), [stmt], {}, None)
+            info["transformed"] = t
+            I.effect("transformed", t)
+            r = I.call(I.getattr(cur, "_execute"), [t, Sym("params")], {}, None)
+        finally:
+            refresh_context(I, conn)
         try:
             info["rowcount"] = I.getattr(cur, "rowcount")
         except _Raise:
@@ -521,7 +558,10 @@ def run_execute(prog: Program, kind: str, mode: str | None, params=None, paramst
             define_variables(conn, variables)
         sset(cur, "sqlstate", Const(old_sqlstate))
         sessions.append((conn, cur))
-        return I.call(I.getattr(cur, entry), [Sym("COMMAND", typ="str", truthy=True), params if params is not None else Const(None)], {}, None)
+        try:
+            return I.call(I.getattr(cur, entry), [Sym("COMMAND", typ="str", truthy=True), params if params is not None else Const(None)], {}, None)
+        finally:
+            refresh_context(I, conn)
 
     paths = explore(prog, factory, run, max_paths=max_paths)
     for p, h, (conn, cur) in zip(paths, hooks_list, sessions):
